@@ -122,7 +122,8 @@ def udp_part(rng, cfg, P, look, base_port=6000):
         m = look(ip, ip2)
         for _ in range(rng.choice([1, 2, 4, 6])):
             did += 1
-            ln = rng.choice(around(rng, m, cap=65535) + [1, 1472, 1475, 1476, 65535])
+            ln = rng.choice(around(rng, m, cap=65535) + [1, 1472, 1475, 1476])
+            if rng.random() < 0.03: ln = rng.choice([65535, 65507, 9000])
             dport = port2 if rng.random() < 0.85 else base_port + 9          # sometimes nobody is bound there
             P.do(c, "%s.send_to %s len=%d bufs=%d id=%d" % (u, ep(ip2, dport), ln, rng.choice([1, 1, 2, 3]), did))
 
@@ -152,7 +153,7 @@ def mixed_scenario(rng, sid):
     return tg.finish(sid, cfg, P)
 
 
-COUNTS = {"tcp": (900, 16000), "udp": (700, 12000), "mixed": (300, 6000), "net": (200, 4000)}
+COUNTS = {"tcp": (2000, 16000), "udp": (1500, 12000), "mixed": (700, 6000), "net": (500, 4000)}
 
 
 def generate(seed, tier, family=None):
